@@ -23,6 +23,7 @@ type StrWalk struct {
 	val      *Valuation
 	rangePos map[*ssa.Range]int
 	next     map[*ssa.Next]nextRes
+	phiStr   map[*ssa.Phi]string // string-typed phis: the string at the time the phi was entered
 }
 
 type nextRes struct {
@@ -36,6 +37,30 @@ func (sw *StrWalk) Install(vl *Valuation) {
 	sw.val = vl
 	sw.rangePos = map[*ssa.Range]int{}
 	sw.next = map[*ssa.Next]nextRes{}
+	sw.phiStr = map[*ssa.Phi]string{}
+	userHook, userStop := vl.PhiHook, vl.RootStop
+	vl.PhiHook = func(phi *ssa.Phi, incoming ssa.Value) {
+		if isStringType(phi.Type()) {
+			// (a loop variable that is resliced every iteration: the incoming value is
+			// re-executed later, so the string is fixed now)
+			if s, ok := sw.StrOf(incoming); ok {
+				sw.phiStr[phi] = s
+			} else {
+				delete(sw.phiStr, phi)
+			}
+		}
+		if userHook != nil {
+			userHook(phi, incoming)
+		}
+	}
+	vl.RootStop = func(v ssa.Value) bool {
+		if p, ok := v.(*ssa.Phi); ok {
+			if _, has := sw.phiStr[p]; has {
+				return true
+			}
+		}
+		return userStop != nil && userStop(v)
+	}
 	userInt, userBool, userVisit := vl.Int, vl.Bool, vl.Visit
 	vl.Int = func(v ssa.Value) (int64, bool) {
 		if n, ok := sw.intAtom(v); ok {
@@ -81,6 +106,11 @@ func (sw *StrWalk) strOf(v ssa.Value, depth int) (string, bool) {
 	if fr != nil {
 		old := sw.val.SetFrame(fr)
 		defer sw.val.SetFrame(old)
+	}
+	if p, ok := v.(*ssa.Phi); ok {
+		if s, has := sw.phiStr[p]; has {
+			return s, true
+		}
 	}
 	if s, ok := sw.Bind(v); ok {
 		return s, true
@@ -134,6 +164,19 @@ func (sw *StrWalk) strOf(v ssa.Value, depth int) (string, bool) {
 			case "strings.ToLower":
 				a, ok := arg(0)
 				return strings.ToLower(a), ok
+			case "strings.TrimLeft", "strings.TrimRight", "strings.Trim":
+				a, ok1 := arg(0)
+				b, ok2 := arg(1)
+				if ok1 && ok2 {
+					switch f.String() {
+					case "strings.TrimLeft":
+						return strings.TrimLeft(a, b), true
+					case "strings.TrimRight":
+						return strings.TrimRight(a, b), true
+					}
+					return strings.Trim(a, b), true
+				}
+				return "", false
 			case "strings.Repeat":
 				a, ok := arg(0)
 				n, ok2 := sw.val.EvalInt(x.Call.Args[1], nil)
@@ -158,6 +201,12 @@ func (sw *StrWalk) intAtom(v ssa.Value) (int64, bool) {
 		}
 		if f := x.Call.StaticCallee(); f != nil {
 			switch f.String() {
+			case "strings.LastIndexByte":
+				s, ok := sw.StrOf(x.Call.Args[0])
+				c, ok2 := sw.val.EvalInt(x.Call.Args[1], nil)
+				if ok && ok2 {
+					return int64(strings.LastIndexByte(s, byte(c))), true
+				}
 			case "strings.IndexByte", "strings.IndexRune":
 				s, ok := sw.StrOf(x.Call.Args[0])
 				c, ok2 := sw.val.EvalInt(x.Call.Args[1], nil)
